@@ -55,6 +55,19 @@ EXTRA_SNIPPETS = {
     "shortXname": ("Epsilonxo, 1 U.S. at 105.", "ShortCaseCitation", 0),               # A/B's volume, C's party name
     "fullNoName": ("1 U.S. 100", "FullCaseCitation", 0),                       # equal to A without parties
     "refUnknown": ("Omegaxo v. Sigmaxo, 8 F.3d 8 (1993). In Omegaxo at 9 we", "ReferenceCitation", 0),
+    # antecedents that occur inside a party name but not at its beginning, in a second case at the beginning
+    "fullD": ("Roexo v. Board of Educationxo, 2 U.S. 2 (1990)", "FullCaseCitation", 0),
+    "fullE": ("Educationxo v. Smithxo, 2 U.S. 50 (1991)", "FullCaseCitation", 0),        # D's reporter+volume
+    "fullMc": ("McDonaldxo v. Xenoxo, 4 F.2d 4 (1950)", "FullCaseCitation", 0),
+    "fullDon": ("Donaldxo v. Yenoxo, 4 F.2d 40 (1951)", "FullCaseCitation", 0),
+    "supraEdu": ("Educationxo, supra, at 3.", "SupraCitation", 0),          # in D (later word) and in E (first word)
+    "supraRoe": ("Roexo, supra, at 3.", "SupraCitation", 0),
+    "supraDon": ("Donaldxo, supra.", "SupraCitation", 0),                  # inside 'McDonaldxo' and = 'Donaldxo'
+    "supraBoard": ("Board, supra, at 3.", "SupraCitation", 0),            # first word of a multi-word name
+    "shortEdu": ("Educationxo, 2 U.S. at 51.", "ShortCaseCitation", 0),    # name in both D and E
+    "shortSmith": ("Smithxo, 2 U.S. at 51.", "ShortCaseCitation", 0),
+    "supraPunct": ("the rule ..., supra, at 4.", "SupraCitation", 0),      # antecedent of punctuation only
+    "supraDash": ("as noted --, supra.", "SupraCitation", 0),
 }
 
 
@@ -102,6 +115,8 @@ FOCUS = {
     "id": ["fullA", "fullPh", "fullRoman", "fullRoman2", "fullNom", "fullNomPlain", "journalPh", "law", "shortForeign",
            "idValid", "idInvalid", "idNoPin", "idWinMax1", "unknown"],
 }
+FOCUS["antecedent"] = ["fullD", "fullE", "fullMc", "fullDon", "supraEdu", "supraRoe", "supraDon", "supraBoard",
+                       "shortEdu", "shortSmith", "supraPunct"]
 FOCUS_LMAX = {3: 4, 5: 5}     # base bound -> focus bound
 
 
@@ -197,6 +212,15 @@ def check_c06(seq, res, emit):
         if share != same:
             emit("C06.full_sharing", dict(a=a.matched_text(), b=b.matched_text(), share=share,
                                           keys_equal=same))
+    # the result is a mapping: every key still finds its own value (a key whose hash changed after it was
+    # inserted does not)
+    for rsrc, lst in res.items():
+        try:
+            found = res.get(rsrc)
+        except Exception:
+            found = None
+        if found is not lst:
+            emit("C06.key_does_not_find_its_value", dict(first=lst[0].matched_text() if lst else None))
     # keys must be pairwise distinct as dict keys and consistent with ==
     ks = list(res.keys())
     for x, y in itertools.combinations(ks, 2):
@@ -302,31 +326,55 @@ def check_c08(seq, res, emit, resolve, stats=None):
 
 def resolution_doc(rng):
     """Running text with several cases, colliding reporter/volume, and all
-    reference kinds (also feeds C05's scenario generator)."""
+    reference kinds."""
+    from eyecite.tokenizers import EDITIONS_LOOKUP
     used = []
     cases = []
     for i in range(rng.randint(1, 4)):
         P = gen.word(rng, used, 3); used.append(P)
         D = gen.word(rng, used, 3); used.append(D)
+        r = rng.random()
+        if r < 0.15:
+            # multi-word party name; a later case may be named after one of its later words
+            D = rng.choice(["Board of ", "City of ", "Department of ", "Estate of "]) + D
+        elif r < 0.3 and cases:
+            # named after a word of an earlier party: at its beginning here, inside it there
+            prev = cases[-1]
+            P = rng.choice([prev[1].split()[-1], prev[0], "Mc" + prev[0], prev[1].split()[-1][2:].capitalize() or P])
+        names = [None]
         if cases and rng.random() < 0.4:
-            rep, vol = cases[-1][2], cases[-1][3]
+            rep, vol, names = cases[-1][2], cases[-1][3], cases[-1][5]
+        elif rng.random() < 0.25:
+            # a reporter string that is a variation of several editions; references may write any of the
+            # edition names it stands for
+            rep, vol = rng.choice(gen.DB.multi), rng.randint(1, 60)
+            names = sorted({e.short_name for e in EDITIONS_LOOKUP[rep]} | {rep})
         else:
             rep, vol = rng.choice(["U.S.", "F.2d", "F.3d", "A.2d", "N.E.2d", "P.2d", "S.W.2d", "Mass.", "Cal. 3d", "U. S."]), rng.randint(1, 500)
-        cases.append((P, D, rep, vol, rng.randint(1, 900)))
+        cases.append((P, D, rep, vol, rng.randint(1, 900), names))
     parts = []
     for _ in range(rng.randint(2, 10)):
-        P, D, rep, vol, page = rng.choice(cases)
+        P, D, rep, vol, page, names = rng.choice(cases)
+        rep2 = rng.choice([n for n in names if n] or [rep]) if rng.random() < 0.5 else rep
         r = rng.random()
+        year = rng.choice([rng.randint(1950, 2020), rng.randint(1750, 1900)])
         if r < 0.05:
-            parts.append(f"The rule was stated in {vol} {rep} {page} ({rng.randint(1950, 2020)})")   # bare full citation
+            parts.append(f"The rule was stated in {vol} {rep} {page} ({year})")   # bare full citation
+        elif r < 0.08:
+            # year before the citation, and a parallel citation that inherits it
+            o = rng.choice(cases)
+            parts.append(f"{P} v. {D} ({year}) {vol} {rep} {page}, {o[3]} {o[2]} {o[4]}")
+        elif r < 0.11:
+            o = rng.choice(cases)
+            parts.append(f"{P} v. {D}, {vol} {rep} {page}, {o[3]} {o[2]} {o[4]} ({year})")
         elif r < 0.3:
-            parts.append(f"{P} v. {D}, {vol} {rep} {page} ({rng.randint(1950, 2020)})")
+            parts.append(f"{P} v. {D}, {vol} {rep2} {page} ({year})")
         elif r < 0.45:
-            parts.append(f"{rng.choice([P, D, 'Foo'])}, {vol} {rep} at {page + rng.randint(0, 30)}")
+            parts.append(f"{rng.choice([P, D, D.split()[-1], 'Foo'])}, {vol} {rep2} at {page + rng.randint(0, 30)}")
         elif r < 0.55:
-            parts.append(f"{vol} {rep} at {page + 1}")
+            parts.append(f"{vol} {rep2} at {page + 1}")
         elif r < 0.7:
-            parts.append(f"{rng.choice([P, D, 'Omegaxo'])}, supra, at {page + rng.randint(0, 30)}")
+            parts.append(f"{rng.choice([P, D, D.split()[-1], D.split()[0], 'Omegaxo', '...', '--', P.lower()])}, supra, at {page + rng.randint(0, 30)}")
         elif r < 0.85:
             parts.append(f"Id. at {page + rng.choice([0, 5, 150, 151, 400, -3])}")
         elif r < 0.9:
